@@ -170,6 +170,23 @@ def edges():
     for a in OPERANDS:
         for b in OPERANDS[:8]:
             add('if-operator', '#if %s ? %s : %s\n#endif\n#if %s ? %s\n#endif\n' % (a, b, a, a, b))
+    # subscripted string literals (the evaluator indexes the literal itself) and macro redefinition with push/pop
+    for lit in ['"abc"', '""', 'u8"abc"', 'L"abc"', "'a'", '"a" "b"', 'X']:
+        for idx in ['-2000000000', '-2147483647-1', '-1', '0', '2', '3', '4', '100', '2000000000', '4294967295', '4294967296', '1/0', '""', '"abc"[0]', '', '-', 'Y']:
+            add('subscript', '#if %s[%s]\nint y;\n#endif\n' % (lit, idx))
+            add('subscript', '#define I %s\n#define S %s\n#if S[I]\nint y;\n#endif\nenum { e = S[I] }; int arr[S[I]];\n' % (idx, lit))
+    for m in ['M', 'M(x)', 'M(x, ...)']:
+        body = 'a b c d e f g h i j k l m n o p q r s t u v w x y z aa bb cc dd ee ff gg hh ii jj kk'
+        for seq in [['def', 'push', 'def', 'pop', 'use'], ['def', 'push', 'undef', 'pop', 'use'], ['def', 'push', 'push', 'def', 'pop', 'def', 'pop', 'use'], ['push', 'def', 'pop', 'use'],
+                    ['def', 'pop', 'use'], ['def', 'push', 'def', 'def', 'pop', 'pop', 'use'], ['def', 'def', 'def', 'use'], ['def', 'undef', 'undef', 'use'], ['pop', 'pop', 'use']]:
+            out_l = []
+            for k, st in enumerate(seq):
+                out_l.append({'def': '#define %s %s %d' % (m, body, k), 'undef': '#undef M', 'push': '#pragma push_macro("M")', 'pop': '#pragma pop_macro("M")', 'use': 'int v = M(1, 2);\nint w = M;'}[st])
+            add('push-pop', '\n'.join(out_l) + '\n')
+    for arg in ['', '(', '("', '("M', '("M"', '("M")', '()', '("")', '(M)', '("M" "N")', '("M", "N")', '("\\', '("M"))', ' ("M")', '("' + 'M' * 300 + '")']:
+        for pr in ['push_macro', 'pop_macro']:
+            add('push-pop', '#define M 1\n#pragma %s%s\nint v = M;\n' % (pr, arg))
+            add('push-pop', '#pragma %s%s' % (pr, arg))
     # literals: every prefix, quote, and unterminated form
     for pre in ['', 'L', 'u', 'U', 'u8', 'R', 'LR', 'uR', 'UR', 'u8R', 'x', 'operator""', '1', '1.0', '"a"']:
         for body in ['', 'a', '\\', '\\"', '\\x', '\\xZZ', '\\777777', '\\u12', '\\U0010FFFFF', '(', ')', '(")', 'x(', 'x()x', 'x(a)y', '()', ')(', '\n', '\\\n', '\x00', '\xff',
@@ -223,6 +240,15 @@ def edges():
         add('structure', s)
         add('structure', s + '\n')
         add('structure', 'class B; ' + s + ' ; int after;\n')
+    # template-ids of declared templates (class, non-type, packs), cut at every point
+    prelude = 'template<class T> struct X {}; template<class... T> struct V {}; template<int N> struct I {}; template<int... N> struct J {}; template<class T, int N = 1, class... R> struct W {};\n'
+    for use in ['X<int> a;', 'V<int, int> a;', 'V<> a;', 'I<1> a;', 'J<1, 2> a;', 'W<int, 2, char, long> a;', 'V<V<int>, X<V<>>> a;', 'X<X<X<int>>> a;', 'I<(1>2)> a;', 'I<1>>1> a;', 'J<1, 2 a;',
+                'V<int, int a;', 'X<int a;', 'W<int, a;', 'V<int,, int> a;', 'V<,> a;', 'X<> a;', 'X<int, int> a;', 'I<int> a;', 'X<1> a;', 'V<int...> a;', 'V<struct Q {}> a;', 'X<decltype(> a;',
+                'typedef V<int, X<int> > T; T::', 'V<int>::type a;', 'template<class... U> struct Y : V<U...> {}; Y<int, int', 'template<class... U> using Z = V<U...>; Z<int,']:
+        for cut in range(len(use) + 1):
+            if cut == len(use) or use[cut] in ' <>,;(':
+                add('template-id', prelude + use[:cut])
+                add('template-id', prelude + use[:cut] + '\n')
     # nesting depth
     for n in [50, 500, 5000]:
         add('depth', 'int x = ' + '(' * n + '1' + ')' * n + ';\n')
